@@ -26,11 +26,18 @@ def table_value(name):
     return int(m.group(1)) if m else None
 
 
+def grace_key():
+    """The known finding names the period of the source tree it was recorded for (Tables.v grace_ns):
+    a tree with another period is not suppressed."""
+    g = table_value("grace_ns")
+    return "%s-%ss" % (KEY_GRACE, "?" if g is None else ("%g" % (g / 1e9)))
+
+
 def classify(rec):
     """Key of a property failure: names the input class, because known findings suppress by key."""
     p = rec["params"]
     if rec.get("forced"):
-        return KEY_GRACE
+        return grace_key()
     if p["mode"] in ("uphttp", "uphttps") and p.get("reply_variant", 0) in (5, 6) and \
             (rec.get("overread_by_reply_reader") or rec.get("timeout") or not rec.get("reply")):
         return KEY_2XX_BODY
@@ -76,6 +83,13 @@ def size_of(rec):
 
 
 def run(ctx):
+    # coqc elaborates the case files on the system stack: lift the soft limit for the children
+    try:
+        import resource
+        _soft, hard = resource.getrlimit(resource.RLIMIT_STACK)
+        resource.setrlimit(resource.RLIMIT_STACK, (hard, hard))
+    except Exception:
+        pass
     ob_failed = []
     ok, msg = ctx.tables(GROUP)
     if not ok:
